@@ -314,6 +314,53 @@ struct Corpus {
         P("streams", std::string("proc main() is { 1('a', ") + st + "); 1(353, " + st + "); 1('c', 0); 1('d', " + st + "); 0(3) }\n");
         P("streams", std::string("val s = ") + st + ";\nproc w(val c, val t) is 1(c, t)\nproc main() is var i; { i := 0; while i < 3 do { w('x' + i, s); i := i + 1 }; w('!', 0); 0(i) }\n");
       }
+      // F13: lexical forms and the unbracketed forms the grammar allows: hexadecimal literals, every character escape, comments in every gap,
+      // chains of one associative operator (+, and, or) of 3..5 operands in every expression position, system calls through val names
+      {
+        for (const char *h : {"#0", "#F", "#f", "#10", "#7F", "#80", "#FF", "#100", "#FFFF", "#10000", "#FFFFF", "#100000", "#7FFFFFFF", "#80000000", "#FFFFFFFF", "#ffffFFFF", "#0000000A", "#aB"}) {
+          std::string H = h;
+          P("lex:hex", "proc main() is 0(" + H + ")\n");
+          P("lex:hex", "val k = " + H + ";\nproc main() is var x; { x := k; if x = " + H + " then 0(x + 1) else 0(7) }\n");
+          P("lex:hex", "proc main() is var x; { x := 2(0); if x < " + H + " then 0(x - " + H + ") else 0(" + H + " - x) }\n");
+        }
+        for (const char *c : {"\\\\", "\\'", "\\\"", "\\t", "\\r", "\\n", "a", " ", "|", "#", "\"", "0", "~"}) {
+          std::string C = c;
+          if (C != "\"") P("lex:char", "proc main() is { 1('" + C + "', 0); 0('" + C + "' + 1) }\n");
+          if (C != "\"") P("lex:char", "proc main() is var x; { x := 2(0); if x = '" + C + "' then 0(1) else 0(x) }\n");
+          std::string S = C == "\"" ? "\\\"" : C;
+          P("lex:string-char", "func at(array s, val k) is return s[k]\nproc main() is 0(at(\"" + S + "x" + S + "\", 0))\n");
+        }
+        for (const char *cm : {"|c\n", "| proc main() is 0(9)\n", "|\n", "||\n", "| \"unterminated\n", "|'\n"}) {
+          std::string K = cm;
+          P("lex:comment", K + "proc main() is 0(1)\n");
+          P("lex:comment", "var g; " + K + "proc main() is " + K + "{ g := 2; " + K + "0(g " + K + "+ " + K + "3) " + K + "}\n");
+          P("lex:comment", "proc main() is 0(1)\n" + K);
+          P("lex:comment", "proc main() is 0(1) " + K.substr(0, K.size() - 1));    // comment ended by end of file
+          P("lex:comment", "func f(val a, " + K + "val b) is return a - b\nproc main() is 0(f(9, " + K + "4))\n");
+        }
+        std::vector<std::string> ops = {"x", "y", "g", "3", "70000", "a[1]", "a[i]", "id(x)", "2(0)", "(x - y)", "(-y)", "(y + 1)", "(x < y)", "(~x)"};
+        std::vector<std::string> bops = {"(x < y)", "(y < x)", "true", "false", "(x = 5)", "(~(x = y))", "(a[1] = 33)", "(id(x) = 6)", "(2(0) = 65)", "(g >= 17)", "(a[i] ~= 65)", "(~(y <= 9))", "((x < y) and (g < y))", "((x = 0) or (y = 9))"};
+        for (const char *op : {"+", "and", "or"}) for (int n = 3; n <= 5; n++) {
+          // operands cycle through the vocabulary from every starting point
+          for (size_t st = 0; st < ops.size(); st++) {
+            const std::vector<std::string> &V = std::string(op) == "+" ? ops : bops;
+            std::string e; for (int k = 0; k < n; k++) e += (k ? std::string(" ") + op + " " : std::string("")) + V[(st + k * 3) % V.size()];
+            std::string pre = "var g; array a[4];\nfunc id(val n) is return n\nfunc two(val u, val v) is return u - v\nproc main() is var x; var y; var i; { x := 5; y := 9; g := 17; i := 2; a[1] := 33; a[2] := 65; ";
+            P(std::string("chain:") + op, pre + "0(" + e + ") }\n");
+            P(std::string("chain:") + op, pre + "x := " + e + "; 0(x - 1) }\n");
+            P(std::string("chain:") + op, pre + "if (" + e + ") = 0 then 0(1) else 0(2) }\n");
+            P(std::string("chain:") + op, pre + "0(two(" + e + ", " + e + " " + op + " 1)) }\n");
+            P(std::string("chain:") + op, pre + "a[3] := 129; 0(a[(" + e + ") and 3]) }\n");
+            if (std::string(op) != "+") { P(std::string("chain:") + op, pre + "if " + e + " then 0(1) else 0(2) }\n"); P(std::string("chain:") + op, pre + "while " + e + " do { x := 0; y := 0; g := 0; a[1] := 0; a[2] := 0; i := 1 }; 0(x + i) }\n"); }
+          }
+        }
+        P("sys:val-named", "val exit = 0; val put = 1; val get = 2;\nproc main() is var c; { c := get(0); put(c, 0); put('!', 0); exit(c + 1) }\n");
+        P("sys:val-named", "val put = 1;\nproc out(val c) is put(c, 0)\nproc main() is { out('a'); out('b'); 0(0) }\n");
+        P("sys:val-named", "val get = 2; val instream = 0;\nfunc rd() is return get(instream)\nproc main() is 0(rd() + rd())\n");
+        P("sys:val-named", "val e = 1 - 1; val p = e + 1;\nproc main() is { p('z', e); e(5) }\n");
+        P("sys:val-named", "val put = 1;\nproc main() is val put = 0; put(9)\n");
+        P("sys:val-named", "val put = 1; val s = 256;\nproc main() is { put('f', s); put('g', s + 256); 0(0) }\n");
+      }
       // F12: every ordered pair (thorough: triple) of simple statements over a vocabulary of assignments and calls whose sources and targets include each
       // constant subscript 0..3 of a global and of a formal array: adjacent-statement interactions (peephole removal of reloads, register reuse)
       {
